@@ -1,16 +1,143 @@
 /-
-C02 — determinism.  (under construction: the block-processor theorems are added below as they are proved)
+C02 — determinism: the data area, the fragment table and every file inode do not depend on the number of worker
+threads, on `max_backlog`, or on how the worker threads are scheduled; they equal what the serial pool with an
+immediate drain computes.  (The environment clause: see `times_depend_only_on_source_date_epoch` below and
+tools/checks/c02.py.)
+
+Model: `Sqfs/Model/BlockProc.lean` (main-thread state machine of `lib/sqfs/src/block_processor/*.c` over an abstract
+pool, block writer of `Model/BlockWriter.lean`), reference: `Sqfs/Spec/BlockProcSpec.lean` (`packRef`: no pool, no
+backlog, no queue), pool: `Sqfs/Model/Pool.lean` + `Sqfs/Props/C09.lean`.
+
+Hypotheses of the block-processor theorems, all of them about parameters:
+  * `0 < P.B < 2^24` — the block size fits the 24-bit size field of a block word (the tools allow 4 KiB … 1 MiB);
+  * `CodecOk P.codec` — the block codec's contract (what it compressed it uncompresses; a compressed block is shorter);
+    without the round trip the *implementation* is schedule dependent: a fragment is compared against the
+    in-flight copy of a fragment block or against the block re-read from disk, depending on the timing;
+  * the checksum `P.h` is arbitrary; the files carry arbitrary flag words and contents of any size.
 -/
-import Sqfs.Model.BlockProc
+import Sqfs.Proofs.BPFinal
+import Sqfs.Props.C09
 import Sqfs.Model.BuildEnv
 namespace Sqfs.C02
-open Sqfs.BuildEnv
+open Sqfs.BlockProc Sqfs.BuildEnv
+
+/-- the parameters with the serial pool's behaviour (`threadpool_serial.c`) -/
+def serial (P : Params) : Params := { P with ans := serialAns }
+
+/-- the queue-free, backlog-free reference of `Sqfs/Spec/BlockProcSpec.lean` -/
+abbrev runEager := packRef
+
+/-! ### backlog -/
+
+/-- **`run_eq_spec`.**  For every `max_backlog` the block processor computes what the reference computes: the same
+`write_data_block` calls in the same order, the same output file, fragment table and inodes — and the same error
+(`SQFS_ERROR_UNSUPPORTED` from `begin_file`) when a file carries flags that are not user settable. -/
+theorem run_eq_spec (P : Params) (hc : CodecOk P.codec) (hB0 : 0 < P.B) (hB : P.B < 2 ^ 24) (mb : Nat) (files : List InFile) :
+    run (serial P) mb files = runEager (serial P) files :=
+  run_eq_packRef (P := serial P) rfl hc hB0 hB mb files
+
+/-- **`backlog_independent`.**  Two values of `max_backlog` (`-Q`) give the same result … -/
+theorem backlog_independent (P : Params) (hc : CodecOk P.codec) (hB0 : 0 < P.B) (hB : P.B < 2 ^ 24) (mb₁ mb₂ : Nat)
+    (files : List InFile) : run (serial P) mb₁ files = run (serial P) mb₂ files := by
+  rw [run_eq_spec P hc hB0 hB, run_eq_spec P hc hB0 hB]
+
+/-- … and it is not an error when every file carries user-settable flags only. -/
+theorem run_ok (P : Params) (hc : CodecOk P.codec) (hB0 : 0 < P.B) (hB : P.B < 2 ^ 24) (mb : Nat) (files : List InFile)
+    (hfl : ∀ f ∈ files, f.flags &&& Consts.blkUserSettable = f.flags) : ∃ out, run (serial P) mb files = .ok out := by
+  rcases run_final (P := serial P) rfl hc hB0 hB mb files with ⟨s, hr, _⟩ | ⟨e, _, _, _, f, hf, hbad⟩
+  · exact ⟨s.w.output, by unfold run; rw [hr]⟩
+  · exact absurd (hfl f hf) hbad
+
+/-- **`dequeue_never_internal_error`.**  The `SQFS_ERROR_INTERNAL` return of `dequeue_block` (the pool is empty although
+the backlog did not shrink) is unreachable, no loop of the model runs out of fuel, the block writer never fails and no
+fragment lookup ends in `SQFS_ERROR_CORRUPTED`: the only error a run can end in is `begin_file`'s refusal of a flag
+word that is not user settable. -/
+theorem dequeue_never_internal_error (P : Params) (hc : CodecOk P.codec) (hB0 : 0 < P.B) (hB : P.B < 2 ^ 24) (mb : Nat)
+    (files : List InFile) (e : Err) (h : run (serial P) mb files = .error e) :
+    e = .unsupported ∧ ∃ f ∈ files, ¬ f.flags &&& Consts.blkUserSettable = f.flags := by
+  rcases run_final (P := serial P) rfl hc hB0 hB mb files with ⟨s, hr, _⟩ | ⟨e', hr, _, he, hbad⟩
+  · unfold run at h; rw [hr] at h; cases h
+  · unfold run at h; rw [hr] at h
+    simp only [Except.error.injEq] at h
+    subst h; exact ⟨he, hbad⟩
+
+/-- **`finish_writes_everything`.**  After `finish`: `io_queue` is empty, nothing is left inside the pool, the backlog is
+0, every numbered block has been written (`io_deq_seq_num = io_seq_num`) and no fragment block is open. -/
+theorem finish_writes_everything (P : Params) (hc : CodecOk P.codec) (hB0 : 0 < P.B) (hB : P.B < 2 ^ 24) (mb : Nat)
+    (files : List InFile) (s : Proc) (h : runProc (serial P) mb files = .ok s) :
+    s.ioQueue = [] ∧ s.pool.ser.queue = [] ∧ s.backlog = 0 ∧ s.ioDeqSeqNum = s.ioSeqNum ∧ s.fragBlock = none := by
+  rcases run_final (P := serial P) rfl hc hB0 hB mb files with ⟨s', hr, hf⟩ | ⟨e', hr, _⟩
+  · rw [hr] at h
+    simp only [Except.ok.injEq] at h
+    subst h
+    exact ⟨hf.ioQueue, hf.pool, hf.backlog, hf.deq, hf.fragBlock⟩
+  · rw [hr] at h; cases h
+
+/-! ### schedules and worker counts: composition with C09 -/
+
+/-- `beh` (the value the pool returns for the last call of a call history) is a behaviour of the **threaded** pool with
+`n` workers: for every call history, either some execution of `threadpool.c`'s model — any schedule of the `n` workers
+and the main thread, spurious wake-ups included, no failing callback — made exactly these calls and returned
+`beh calls` last; or `beh` answers what `threadpool_serial.c` answers (histories the block processor never produces,
+e.g. calls after `destroy`). -/
+def RealisedBy (n : Nat) (beh : List Pool.Op → Pool.Ret) : Prop :=
+  ∀ calls, (∃ (cfg : Pool.Cfg) (s : Pool.State), (∀ d, cfg.rcOf d = 0) ∧ Pool.Reachable cfg n s ∧
+              (s.main = .idle ∨ s.main = .finished) ∧ s.calls = calls ∧ s.rets.getLast? = some (beh calls)) ∨
+           beh calls = serialAnsHist calls
+
+/-- what `Sqfs.C09.refines_serial` says about such a behaviour -/
+theorem realised_eq_serial (n : Nat) (beh : List Pool.Op → Pool.Ret) (h : RealisedBy n beh) :
+    behAns beh = serialAns := by
+  funext p op
+  have hser : serialAns p op = serialAnsHist (p.calls ++ [op]) := by
+    unfold serialAns serialAnsHist
+    rw [Pool.Serial.run_append, ← p.tracks]
+    rfl
+  rw [hser]
+  unfold behAns
+  rcases h (p.calls ++ [op]) with ⟨cfg, s, hok, hr, hidle, hcalls, hlast⟩ | hs
+  · have href := Sqfs.C09.refines_serial hok hr hidle
+    have hrc : cfg.rcOf = rc0 := funext hok
+    unfold serialAnsHist
+    rw [← hcalls, ← hrc, ← href, hlast, hcalls]
+    rfl
+  · exact hs
+
+/-- **`schedule_independent`.**  Run the block processor on top of *any* behaviour of the threaded pool — any number
+of workers, any schedule, with spurious wake-ups — as long as no callback fails: the result is the serial pool's,
+hence (`run_eq_spec`) the reference's, for every `max_backlog`. -/
+theorem schedule_independent (P : Params) (hc : CodecOk P.codec) (hB0 : 0 < P.B) (hB : P.B < 2 ^ 24) (n : Nat)
+    (beh : List Pool.Op → Pool.Ret) (h : RealisedBy n beh) (mb : Nat) (files : List InFile) :
+    run { P with ans := behAns beh } mb files = run (serial P) mb files ∧
+    run { P with ans := behAns beh } mb files = runEager (serial P) files := by
+  have : ({ P with ans := behAns beh } : Params) = serial P := by
+    unfold serial; rw [realised_eq_serial n beh h]
+  rw [this]
+  exact ⟨rfl, run_eq_spec P hc hB0 hB mb files⟩
+
+/-- **`jobs_independent`.**  `-j n₁ -Q mb₁` under one schedule and `-j n₂ -Q mb₂` under another give the same result. -/
+theorem jobs_independent (P : Params) (hc : CodecOk P.codec) (hB0 : 0 < P.B) (hB : P.B < 2 ^ 24) (n₁ n₂ : Nat)
+    (beh₁ beh₂ : List Pool.Op → Pool.Ret) (h₁ : RealisedBy n₁ beh₁) (h₂ : RealisedBy n₂ beh₂) (mb₁ mb₂ : Nat)
+    (files : List InFile) :
+    run { P with ans := behAns beh₁ } mb₁ files = run { P with ans := behAns beh₂ } mb₂ files := by
+  rw [(schedule_independent P hc hB0 hB n₁ beh₁ h₁ mb₁ files).2, (schedule_independent P hc hB0 hB n₂ beh₂ h₂ mb₂ files).2]
+
+/-! ### environment -/
 
 /-- **Environment clause (model level).**  The time stamps of an image — the super block's `modification_time` and
 every inode's `mod_time` — are the same in two process environments that agree on `SOURCE_DATE_EPOCH`, whatever the
-wall clock, time zone, locale, umask and working directory are. -/
+wall clock, time zone, locale, umask and working directory are.  (That the tools consult nothing else is decided by
+the tool-level runs of tools/checks/c02.py with a faked clock and varied environments.) -/
 theorem times_depend_only_on_source_date_epoch (e1 e2 : ProcessEnv) (o : Options) (inputs : List Int)
     (h : e1.sourceDateEpoch = e2.sourceDateEpoch) : imageTimes e1 o inputs = imageTimes e2 o inputs := by
   simp [imageTimes, superMtime, inodeMtime, defaultMtime, h]
+
+/-- `get_source_date_epoch` returns 0 for an unset, empty, non-numeric or too large value, so those environments
+all give the image of `SOURCE_DATE_EPOCH=0` -/
+theorem source_date_epoch_default (s : List UInt8) (h : sdeDigits s 0 = none) :
+    sourceDateEpoch (some s) = sourceDateEpoch none := by
+  cases s with
+  | nil => rfl
+  | cons a t => simp [sourceDateEpoch, h]
 
 end Sqfs.C02
